@@ -20,8 +20,12 @@ Local Open Scope Z_scope.
 Record dcli : Type := mkDcli {
   dc : client;              (* id, command in progress, telemetry / exprange / quit flags, everything emitted so far *)
   dc_from : text;           (* c->from: input not yet cut into lines *)
-  dc_to : text              (* c->to: output not yet written to the descriptor *)
+  dc_to : text;             (* c->to: output not yet written to the descriptor *)
+  (* history variables (not part of the C state; used by the theorems only) *)
+  dc_nl : nat;              (* number of LF bytes received from the client so far = complete lines received *)
+  dc_lines : nat            (* lines handed to _parse_input so far *)
 }.
+Fixpoint count_lf (s : text) : nat := match s with [] => O | c :: r => ((if N.eqb c LF then 1 else 0) + count_lf r)%nat end.
 
 Record daemon : Type := mkDaemon {
   dm_nodes : list text;                      (* conf_nodes in its current order (the `nodes` query sorts it in place) *)
@@ -64,9 +68,9 @@ Record dout : Type := mkDout { do_evs : list sysev; do_tmo : option Z }.
 
 Definition set_dc (c : client) (x : dcli) : dcli :=
   (* whatever the client layer appended to cl_out goes into c->to as well *)
-  mkDcli c (dc_from x) (dc_to x ++ skipn (length (cl_out (dc x))) (cl_out c)).
+  mkDcli c (dc_from x) (dc_to x ++ skipn (length (cl_out (dc x))) (cl_out c)) (dc_nl x) (dc_lines x).
 Definition set_quit (x : dcli) : dcli :=
-  let c := dc x in mkDcli (mkClient (cl_id c) (cl_cmd c) (cl_tele c) (cl_exp c) true (cl_out c)) (dc_from x) (dc_to x).
+  let c := dc x in mkDcli (mkClient (cl_id c) (cl_cmd c) (cl_tele c) (cl_exp c) true (cl_out c)) (dc_from x) (dc_to x) (dc_nl x) (dc_lines x).
 
 (* cbuf_read_line(c->from, buf, sizeof buf, 1): the bytes up to and including the first LF (valid while the line is
    shorter than the 1 MiB line buffer: `line_fits`) *)
@@ -132,11 +136,11 @@ Section D.
         | None => Ok (st, acc)
         | Some (line, rest) =>
           let '(cf', store', c', q) := parse_input expand_str ranged_sorted ranged_plain sorted (cconf_of st) (dm_store st) (dc x) line in
-          let x0 := set_dc c' (mkDcli (dc x) rest (dc_to x)) in
+          let x0 := set_dc c' (mkDcli (dc x) rest (dc_to x) (dc_nl x) (S (dc_lines x))) in
           (* `quit`: _parse_input calls _handle_write at once, on a descriptor made blocking: everything queued
              (the 101 line included) is written before the client is destroyed at the end of this pass *)
           let quits := cl_quit c' && negb (cl_quit (dc x)) in
-          let x' := if quits && flush_ok then mkDcli (dc x0) (dc_from x0) [] else x0 in
+          let x' := if quits && flush_ok then mkDcli (dc x0) (dc_from x0) [] (dc_nl x0) (dc_lines x0) else x0 in
           let flushed := if quits && flush_ok then dc_to x0 else [] in
           let tele := cl_tele (dc x) in
           let args := length (dm_store st) in
@@ -161,13 +165,13 @@ Section D.
         let x1 := if ci_in ci then
                     match ci_read ci with
                     | None | Some [] => set_quit x
-                    | Some b => mkDcli (dc x) (dc_from x ++ b) (dc_to x)
+                    | Some b => mkDcli (dc x) (dc_from x ++ b) (dc_to x) (dc_nl x + count_lf b) (dc_lines x)
                     end
                   else x in
         let '(x2, w) := if ci_out ci then
                           match ci_wrote ci with
                           | None => (set_quit x1, [])
-                          | Some n => (mkDcli (dc x1) (dc_from x1) (skipn n (dc_to x1)), firstn n (dc_to x1))
+                          | Some n => (mkDcli (dc x1) (dc_from x1) (skipn n (dc_to x1)) (dc_nl x1) (dc_lines x1), firstn n (dc_to x1))
                           end
                         else (x1, []) in
         let st1 := mkDaemon (dm_nodes st) (dm_aliases st) (dm_specs st) (dm_pipe st) (dm_devs st)
@@ -221,7 +225,7 @@ Section D.
         let '(id, seq') := next_id (dm_seq st) in
         let c := new_client id (dm_version st) in
         (mkDaemon (dm_nodes st) (dm_aliases st) (dm_specs st) (dm_pipe st) (dm_devs st)
-                  (dm_clients st ++ [mkDcli c [] (cl_out c)]) seq' (dm_store st) (dm_version st) (dm_tel st), [SysAccept id])
+                  (dm_clients st ++ [mkDcli c [] (cl_out c) O O]) seq' (dm_store st) (dm_version st) (dm_tel st), [SysAccept id])
       else (st, []) in
     cli_loop st1 O (pad_cins (length (dm_clients st1)) (r_cli r)) e1.
 
